@@ -345,7 +345,7 @@ prop(
 
 prop(
     "C15",
-    ["LolHtml.Thm.C15_Core", "LolHtml.Thm.C15_Full", "LolHtml.Thm.C15_Linear", "LolHtml.Thm.Full", "LolHtml.Thm.Full3", "LolHtml.Thm.Full4", "LolHtml.Thm.Full5", "LolHtml.Thm.FullIds", "LolHtml.Thm.FullPay", "LolHtml.Thm.C15_Args", "LolHtml.Thm.Full6", "LolHtml.Thm.Full7", "LolHtml.Thm.Full8", "LolHtml.Thm.Full9", "LolHtml.Thm.Full10", "LolHtml.Thm.Full11", "LolHtml.Thm.Full12"],
+    ["LolHtml.Thm.C15_Core", "LolHtml.Thm.C15_Full", "LolHtml.Thm.C15_Linear", "LolHtml.Thm.Full", "LolHtml.Thm.Full3", "LolHtml.Thm.Full4", "LolHtml.Thm.Full5", "LolHtml.Thm.FullIds", "LolHtml.Thm.FullPay", "LolHtml.Thm.C15_Args", "LolHtml.Thm.Full6", "LolHtml.Thm.Full7", "LolHtml.Thm.Full8", "LolHtml.Thm.Full9", "LolHtml.Thm.Full10", "LolHtml.Thm.Full11", "LolHtml.Thm.Full12", "LolHtml.Thm.FullGuardW", "LolHtml.Thm.FullGuardX", "LolHtml.Thm.Full13", "LolHtml.Thm.Full14", "LolHtml.Thm.Full15"],
     [{"lane": "lex", "n_quick": 4000, "n_thorough": 200000},
      {"lane": "fault", "n_quick": 3000, "n_thorough": 60000},
      {"lane": "full", "n_quick": 2000, "n_thorough": 40000},
@@ -353,7 +353,7 @@ prop(
     LEX_RULE + "; every lane of the harness runs in a build with overflow checks and debug assertions, each case under catch_unwind (a panic is an observation `PANIC …`, compared with the model which makes every panic site explicit); lane patho (implementation only): pathological shapes (deep nesting, one giant tag name / attribute list / attribute value / comment / doctype, '<' and '</' runs, foreign content, script escapes, select, CDATA, random markup bytes, hundreds of selectors, random selector strings) at sizes up to 4*10^6 bytes, in one write and in 4 KiB writes, with a deterministic work oracle (bytes handed to Parser::parse, counted by a hook, <= 2*len + 4 KiB) and a hard CPU bound",
     ["covers the parser / dispatcher / transform-stream core; panics in selectors/cssparser/encoding_rs/std and in the packages' own scopes (selector VM: C04_vm_never_panics; handlers: C05_no_panic; memory: C10_error_not_panic; nth: C04_nth_total) are those packages' theorems",
      "the two former open sites (U2: 'Tag should be a start tag at this point', RequestLexeme callback assertion) are closed by C15_no_panic_full at the cost of one more decidable table side-condition RelexSide (HeadOk, RelexOk, TextTypeOk, PhaseOk: the token-kind agreement between scanner and re-lexing lexer is a property of the table), decided on the regenerated table on every run",
-     "CtlClean quantifies over all controller states; the real controller model (Model/Full) satisfies it only on states reachable in runs (Full_not_ctlClean: the aux-info continuation without a pending request is rewrite_controller.rs's 'vm req without vm' branch) — no callback-closed state invariant can repair this (Full_ctlClean_unattainable: a call ORDER the dispatcher never produces reaches the stale-locator debug_assert in HandlerVec::inc_user_count; Full_no_state_invariant_suffices), so C15_no_panic_full does not instantiate at the real controller as stated. Proved instead (Thm/Full3, Full_no_panic_protocol): along every protocol-conforming event sequence from the initial state of ANY configuration the controller ends fault-free in the joint invariant (typing, scope Inv, selector-VM SemInv), stops with a content-handler error, or stops at one of three residual glue sites (attribute raw slice out of range, token range before the slice base, end-tag payload missing); every VM panic, dispatcher locator / match-id / refcount panic, stack desynchronisation and 'vm req without vm' is excluded. Round 3 (Thm/Full4): every lexer-mode dispatcher operation (handle_tag, handle_non_tag_content, handle_end) from an idle dispatcher state is protocol-conforming and ends idle again or fails with a content-handler error / one of three named glue sites / a dispatcher slice check (Full_handleTag_lexer, Full_handleNonTag_lexer, Full_handleEnd_lexer; the `token range before slice base` site is eliminated); with the CLEANED controller (panic-class callback errors mapped to handler errors) the whole model never panics (Full_clean_no_panic), and the real run equals the cleaned run call by call up to the first panic-class callback error (Full_writes_agree_or_panic): parser, dispatcher and stream add no panic site of their own. Round 4 (Thm/Full5): Full_no_panic_lexer_allowed — for EVERY configuration with a document-level text / comment / doctype handler (the parser never enters scanner mode), settings, input and chunking, every call of the whole rewriter model with the REAL controller returns ok, a handler / memory / ambiguity error, the documented use-after-error panic, or a panic at one of TWO named glue sites (rAttr: attribute raw range outside the tag's raw range; rMatcher: attribute name/value slice out of range) — parser, stream, dispatcher (incl. its own slice checks), selector VM, handler vectors and the other glue sites are excluded; Round 5 (Thm/C15_Args, Thm/Full6): the two lexeme facts are THEOREMS for arbitrary sinks — C15_parse_args_valid: for every table passing WfTable, the token-part certificate, the NEW attribute-raw-range certificate checkRaw (a flow-sensitive analysis: an attribute started but not yet named has raw range 0..0 and must never be pushed; a table dropping finish_attr_name from one arm passes the old certificates and fails this one, witness self_closing_start_tag_state) and EmitsChecked, every sink, input and chunking, every tag lexeme handed to handle_tag has its attribute name / value / raw ranges inside the lexeme and the input, up to the first error — hence Full_rAttr, Full_rMatcher and Full_no_panic_lexer: in lexer-mode configurations NO call of the whole rewriter model with the REAL controller (any selectors, mutating / removing / failing scripts, any settings, input and chunking) returns a panic- or internal-class error. Scanner mode for the real controller: Thm/Full7 reduces Full_no_panic_statement to two named hypotheses (Full_no_panic_partial'): an operation-level one (the two hint operations and handle_tag from the three post-hint dispatcher states behave like the cleaned controller's on valid lexemes) and a run-level one (the relex agreement C06_relex_same_tag / _end_tag restated relative to a sink-state invariant: the kind guard never fires); the argument guard never fires for the real controller in ANY configuration, scanner mode included (Full_args_guardFree, no hypothesis); Full_no_panic_partial2 (Thm/Full8) moves the run-level hypothesis entirely to the CLEANED controller, to which pkg-scan's relex agreement applies as it stands; Thm/Full9 adds the ghost 'outstanding hint kind' controller hintCtl with its homomorphism lemma (run_hint: the ghost is free) and assembles Full_no_panic_partial3: the statement follows from two named hypotheses — the hint operations of the real controller from the four protocol states (Full_scan_opsH_statement) and the kind-guard freedom of the cleaned controller's runs (Full_clean_kindH_statement, = the relex agreement in both hint directions); STATUS of that reduction: the run-level hypothesis is PROVED (Thm/Full10, Full_clean_kindH: in runs of the cleaned, ghost-instrumented controller the kind guard never fires — the relex agreement in both hint directions, PendLaw for PendS / PendE, no hypothesis left); the operation-level hypothesis AS STATED is REFUTED (Thm/Full11, Full_scan_opsH_unsat: for every invariant Inv the statement is false, because CtlRelG demands the invariant after an operation that fails identically in both runs, and the dispatcher's own bounds check emit_chunk_before_lexeme is such a failure on lexemes the per-operation quantifier admits) — so Full_no_panic_partial3 is VACUOUS as it stands and is NOT claimed; the first repair (watermark guard added: Full_scan_opsW_statement) was refuted as well (Full_scan_opsW_unsat: the per-operation relation lets a hint be issued while another is outstanding, which the parser never does); the second repair guards the hint operations too (Thm/Full12: guardHints, Full_scan_opsX_statement with the closed invariant InvX) and is proved for idle x all four operations, all refused hints / lexemes, flush, handle_end and the initial state (Full_scan_opsX_partial), with the post-hint handle_tag / non-tag cases as two named hypotheses; the matching lifting and run-level companions are in progress (Thm/Full13 if present). What IS proved for scanner mode: parser, dispatcher and stream add no panic site of their own with the real controller (Full_writes_agree_or_panic), the argument guard and the kind guard never fire (Full_args_guardFree, Full_clean_kindH), and the controller is panic-free along protocol-conforming event sequences (Full_no_panic_protocol); Full_no_panic for scanner mode remains a statement",
+     "CtlClean quantifies over all controller states; the real controller model (Model/Full) satisfies it only on states reachable in runs (Full_not_ctlClean: the aux-info continuation without a pending request is rewrite_controller.rs's 'vm req without vm' branch) — no callback-closed state invariant can repair this (Full_ctlClean_unattainable: a call ORDER the dispatcher never produces reaches the stale-locator debug_assert in HandlerVec::inc_user_count; Full_no_state_invariant_suffices), so C15_no_panic_full does not instantiate at the real controller as stated. Proved instead (Thm/Full3, Full_no_panic_protocol): along every protocol-conforming event sequence from the initial state of ANY configuration the controller ends fault-free in the joint invariant (typing, scope Inv, selector-VM SemInv), stops with a content-handler error, or stops at one of three residual glue sites (attribute raw slice out of range, token range before the slice base, end-tag payload missing); every VM panic, dispatcher locator / match-id / refcount panic, stack desynchronisation and 'vm req without vm' is excluded. Round 3 (Thm/Full4): every lexer-mode dispatcher operation (handle_tag, handle_non_tag_content, handle_end) from an idle dispatcher state is protocol-conforming and ends idle again or fails with a content-handler error / one of three named glue sites / a dispatcher slice check (Full_handleTag_lexer, Full_handleNonTag_lexer, Full_handleEnd_lexer; the `token range before slice base` site is eliminated); with the CLEANED controller (panic-class callback errors mapped to handler errors) the whole model never panics (Full_clean_no_panic), and the real run equals the cleaned run call by call up to the first panic-class callback error (Full_writes_agree_or_panic): parser, dispatcher and stream add no panic site of their own. Round 4 (Thm/Full5): Full_no_panic_lexer_allowed — for EVERY configuration with a document-level text / comment / doctype handler (the parser never enters scanner mode), settings, input and chunking, every call of the whole rewriter model with the REAL controller returns ok, a handler / memory / ambiguity error, the documented use-after-error panic, or a panic at one of TWO named glue sites (rAttr: attribute raw range outside the tag's raw range; rMatcher: attribute name/value slice out of range) — parser, stream, dispatcher (incl. its own slice checks), selector VM, handler vectors and the other glue sites are excluded; Round 5 (Thm/C15_Args, Thm/Full6): the two lexeme facts are THEOREMS for arbitrary sinks — C15_parse_args_valid: for every table passing WfTable, the token-part certificate, the NEW attribute-raw-range certificate checkRaw (a flow-sensitive analysis: an attribute started but not yet named has raw range 0..0 and must never be pushed; a table dropping finish_attr_name from one arm passes the old certificates and fails this one, witness self_closing_start_tag_state) and EmitsChecked, every sink, input and chunking, every tag lexeme handed to handle_tag has its attribute name / value / raw ranges inside the lexeme and the input, up to the first error — hence Full_rAttr, Full_rMatcher and Full_no_panic_lexer: in lexer-mode configurations NO call of the whole rewriter model with the REAL controller (any selectors, mutating / removing / failing scripts, any settings, input and chunking) returns a panic- or internal-class error. Scanner mode for the real controller: Thm/Full7 reduces Full_no_panic_statement to two named hypotheses (Full_no_panic_partial'): an operation-level one (the two hint operations and handle_tag from the three post-hint dispatcher states behave like the cleaned controller's on valid lexemes) and a run-level one (the relex agreement C06_relex_same_tag / _end_tag restated relative to a sink-state invariant: the kind guard never fires); the argument guard never fires for the real controller in ANY configuration, scanner mode included (Full_args_guardFree, no hypothesis); Full_no_panic_partial2 (Thm/Full8) moves the run-level hypothesis entirely to the CLEANED controller, to which pkg-scan's relex agreement applies as it stands; Thm/Full9 adds the ghost 'outstanding hint kind' controller hintCtl with its homomorphism lemma (run_hint: the ghost is free) and assembles Full_no_panic_partial3: the statement follows from two named hypotheses — the hint operations of the real controller from the four protocol states (Full_scan_opsH_statement) and the kind-guard freedom of the cleaned controller's runs (Full_clean_kindH_statement, = the relex agreement in both hint directions); STATUS of that reduction: the run-level hypothesis is PROVED (Thm/Full10, Full_clean_kindH: in runs of the cleaned, ghost-instrumented controller the kind guard never fires — the relex agreement in both hint directions, PendLaw for PendS / PendE, no hypothesis left); the operation-level hypothesis AS STATED is REFUTED (Thm/Full11, Full_scan_opsH_unsat: for every invariant Inv the statement is false, because CtlRelG demands the invariant after an operation that fails identically in both runs, and the dispatcher's own bounds check emit_chunk_before_lexeme is such a failure on lexemes the per-operation quantifier admits) — so Full_no_panic_partial3 is VACUOUS as it stands and is NOT claimed; the first repair (watermark guard added: Full_scan_opsW_statement) was refuted as well (Full_scan_opsW_unsat: the per-operation relation lets a hint be issued while another is outstanding, which the parser never does); the second repair guards the hint operations too (Thm/Full12: guardHints, Full_scan_opsX_statement with the closed invariant InvX) and is proved for idle x all four operations, all refused hints / lexemes, flush, handle_end and the initial state (Full_scan_opsX_partial), and — with the invariant strengthened to InvY = InvX + 'an outstanding end-tag hint with an active end-tag handler vector has NEXT_END_TAG in the flags' (InvX alone is not inductive) — for EVERY (operation, protocol state) pair (Thm/Full14, Full_scan_opsX). The lifting for the guarded-hints wrapper (run_relX), the freedom of all four guards in the cleaned runs (arguments, kind, watermark, hints: Full_clean_guardX') and the assembly Full_no_panic_partial4 are in Thm/Full13; the capstone Thm/Full15 combines them: Full_no_panic — for EVERY configuration (any selectors; element / text / comment / doctype / end-tag / document-end handlers with observing, mutating, removing or failing scripts), settings, input and chunking, in lexer AND scanner mode, no call of the whole rewriter model with the REAL controller returns a panic- or internal-class error. What IS proved for scanner mode: parser, dispatcher and stream add no panic site of their own with the real controller (Full_writes_agree_or_panic), the argument guard and the kind guard never fire (Full_args_guardFree, Full_clean_kindH), and the controller is panic-free along protocol-conforming event sequences (Full_no_panic_protocol); Full_no_panic is now a THEOREM (Thm/Full15) — see the end of this entry",
      "work bound: C15_linear_parse (one parse call makes <= 32(|slice|+1) state invocations) and C15_work_linear_when_drained (total work linear when each write leaves <= K retained bytes); without draining the bytes handed to the parser grow quadratically: C15_work_quadratic_witness = known finding F29",
      "known finding F29: a token spanning many writes is re-lexed from its start on every write (quadratic work), found by lane patho",
      "the controller itself never returns a panic/internal-class error (CtlClean)", MODEL_SCOPE],
@@ -373,7 +373,8 @@ prop(
                 "(C15_work_quadratic_witness, F29). For the REAL controller model (selector VM + handler dispatcher + edit model): "
                 "Full_no_panic_lexer — with a document-level text / comment / doctype handler (lexer mode) no call of the whole "
                 "rewriter returns a panic- or internal-class error, for every configuration, input and chunking (lexeme-argument "
-                "facts for arbitrary sinks: C15_parse_args_valid with the new certificate checkRaw)."),
+                "facts for arbitrary sinks: C15_parse_args_valid with the new certificate checkRaw); and Full_no_panic (Thm/Full15) "
+                "removes the lexer-mode restriction: scanner mode included, every configuration, no panic- or internal-class result."),
     level_note="Trusted: Lean kernel; DSL translator; the core model (lanes lex / fault, debug build).",
     technique="Lean 4 proof (register invariants through the DSL interpreter; static analyses of the table as kernel-checked side-conditions) + correspondence lanes in a debug build",
     design_ref="DESIGN.md section 4 C15",
